@@ -240,6 +240,15 @@ def const_string(idx, func, e):
     d = idx.by_id.get(r)
     if not d or d.get('kind') != 'VarDecl':
         return None
+    if r not in {x.get('id') for x in walk(func.body) if x.get('kind') == 'VarDecl'}:
+        # a namespace-scope name: constant if no function of the unit assigns it
+        for g in idx.all_funcs():
+            if g.body is None:
+                continue
+            for a in walk(g.body):
+                if a['kind'] == 'BinaryOperator' and a.get('opcode') == '=' and cast.decl_ref(children(a)[0]) == r:
+                    return None
+        return cast.string_lit(d)
     for a in walk(func.body):
         if a['kind'] == 'BinaryOperator' and a.get('opcode', '').endswith('=') and a.get('opcode') not in ('==', '!=', '<=', '>=') \
                 and cast.decl_ref(children(a)[0]) == r:
@@ -670,6 +679,62 @@ def rule_r8(rep, idxs):
             rep.undecided('R8', tu + ':option-consumer', 'no object constructed from an option variable found: idiom not recognised', pos(m.node))
 
 
+def rule_r11(rep, idxs):
+    rep.rule('R11', '"xrun behaves like xcmp followed by hexsim on the result": on every path on which xrun loads and runs a binary, the '
+             'compiler has been run on the given source in this invocation and returned 0 (no reuse of an older binary)', floor=1)
+    idx = idxs['xrun.cpp']
+    m = main_of(idx)
+
+    class C(flow.Client):
+        def __init__(self_):
+            self_.bad = []
+
+        def _tf(self_, e, s_):
+            x = strip(e)
+            if x['kind'] == 'BinaryOperator' and x.get('opcode') in ('||', '&&'):
+                a, b = children(x)
+                at, af = self_._tf(a, s_)
+                if x['opcode'] == '||':
+                    bt, bf = [], []
+                    for st in af:
+                        t2, f2 = self_._tf(b, st)
+                        bt += t2
+                        bf += f2
+                    return at + bt, bf
+                bt, bf = [], []
+                for st in at:
+                    t2, f2 = self_._tf(b, st)
+                    bt += t2
+                    bf += f2
+                return bt, af + bf
+            if x['kind'] == 'UnaryOperator' and x.get('opcode') == '!':
+                t, f_ = self_._tf(children(x)[0], s_)
+                return f_, t
+            calls = [c for c in calls_in(x) if callee_of(c)[1] == 'runCatchExceptions']
+            if calls and x['kind'] == 'BinaryOperator' and x.get('opcode') in ('==', '!='):
+                zero = any(cast.const_int(c_, idx) == 0 for c_ in children(x))
+                if zero:
+                    return ([True], [s_]) if x['opcode'] == '==' else ([s_], [True])
+            r_ = list(self_.expr(e, s_))
+            return r_, r_
+
+        def cond(self_, e, s_):
+            return self_._tf(e, s_)
+
+        def expr(self_, e, s_):
+            for c in calls_in(e):
+                kind, name, did, obj = callee_of(c)
+                if name in ('load', 'run') and obj is not None and 'Processor' in dqt_all(obj) and not s_:
+                    self_.bad.append(pos(c))
+            return [s_]
+    cl = C()
+    flow.Flow(cl, idx).run(m.body, {False})
+    rep.add('R11', 'xrun.cpp:compile-dominates-simulation', not cl.bad, pos(m.node) + ' main(xrun.cpp)',
+            ('the simulator is loaded / run at %s on a path on which the compiler has not been run successfully in this invocation: whatever '
+             'binary lies in the directory is executed' % sorted(set(cl.bad))) if cl.bad else
+            'load() and run() are only reached after runCatchExceptions(...) == 0')
+
+
 def rule_r9(rep, idxs):
     rep.rule('R9', 'an empty source is a source: where a tool copies its input with `stream << other.rdbuf()`, the target\'s state is reset '
              'afterwards -- inserting an empty stream buffer sets failbit (and never eofbit), after which the lexer cannot reach '
@@ -846,6 +911,7 @@ def run(rep, tier):
     rule_r7(rep, idxs)
     rule_r8(rep, idxs)
     rule_r9(rep, idxs)
+    rule_r11(rep, idxs)
     # R10: "hexsim's and xrun's exit status is the program's exit value": the loader must not turn a valid image away (import of C02-R2)
     from .. import report as _report
     from . import c02
